@@ -8,3 +8,5 @@ pub mod registry;
 
 #[cfg(any(feature = "c08", not(kani)))]
 pub mod c08;
+#[cfg(any(feature = "c04", not(kani)))]
+pub mod c04;
